@@ -1276,6 +1276,7 @@ def run_locators(ctx):
             ("cartesian offset", grids.CartesianGrid.fromRectangle(1.0, 2.0, numRings=3, isOffset=True), sqcells, False),
             ("theta-R-Z", grids.ThetaRZGrid(bounds=(np.array([0.0, 1.0, 2.0, 3.0, 4.0, 5.0, 6.0]), np.arange(8.0), np.arange(5.0))),
              [(i, j) for i in range(6) for j in range(7)], True)]
+    nreq, nimpl, ncases = [], [], []
     for name, g, cells, has_rp in todo:
         for (i, j) in cells:
             for k in ((0, 3) if name != "theta-R-Z" else (0, 2)):
@@ -1305,6 +1306,9 @@ def run_locators(ctx):
                                  {**case, "argument": fname}, observed=tuple(g.getRingPos(arg)))
                 if name.startswith("hex"):
                     nb = g.getNeighboringCellIndices(i, j, k)
+                    nreq.append(f"neigh3 {i} {j} {k}")
+                    nimpl.append("[" + ",".join(f"[{int(a)},{int(b)},{int(c)}]" for a, b, c in nb) + "]")
+                    ncases.append(("neigh3", name, i, j, k))
                     if [t[:2] for t in nb] != [t[:2] for t in g.getNeighboringCellIndices(i, j, 0)] or any(int(t[2]) != k for t in nb):
                         ctx.fail("hex-neighbours-keep-plane", "the six neighbours of (i, j, k) are the in-plane neighbours at the same k",
                                  case, observed=[tuple(int(v) for v in t) for t in nb])
@@ -1342,6 +1346,9 @@ def run_locators(ctx):
                 ctx.fail("locator-multi-sites", "grid[[cells]] is a multi-location whose sites are exactly those cells of "
                          "that grid", {"grid": name, "cells": want}, observed=got)
         ctx.count("locator round trips: " + name, len(cells) * 2)
+    model = lean_run("Hex", nreq)
+    ctx.compare("Model/Hex.lean neighbours3 vs HexGrid.getNeighboringCellIndices(i, j, k)", ncases, model, nimpl)
+    ctx.evaluations += len(nreq)
 
 
 # ------------------------------------------------------------------------------------------ entry points
